@@ -99,6 +99,9 @@ func runC02(env *Env, tier string) {
 		}
 		var idx atomic.Int32
 		s.E.SF.Fail = func(op string, n int) error {
+			if op == "IncrTarget" {
+				return nil // outbound numbering is this check's subject
+			}
 			if failAt[int(idx.Add(1))-1] {
 				env.Stat("fault_store_write_refused")
 				return fmt.Errorf("injected: store refuses %s %d", op, n)
